@@ -235,11 +235,27 @@ def finish(out):
 def job_entry(spec_tuple):
     """entry point for pool workers"""
     kind, name, case, opts = spec_tuple
+    import signal
+
+    class JobTimeout(Exception):
+        pass
+
+    def _alarm(sig, frm):
+        raise JobTimeout()
+    signal.signal(signal.SIGALRM, _alarm)
+    signal.alarm(int(opts.get("job_timeout_s", 240)))
     try:
         load_contracts()
-        if kind == "lemma":
-            return run_lemma(name, opts)
-        return run_job(name, case, opts)
+        try:
+            if kind == "lemma":
+                return run_lemma(name, opts)
+            return run_job(name, case, opts)
+        finally:
+            signal.alarm(0)
+    except JobTimeout:
+        return {"target": name, "case": case, "prop": "?", "obligations": [], "kind": kind,
+                "undecided": [f"job exceeded its time limit of {opts.get('job_timeout_s', 240)} s"], "paths": 0, "normal_paths": 0,
+                "raise_paths": 0, "notes": [], "inlined": [], "used_contracts": [], "lib_used": [], "cut_paths": 0}
     except Exception as e:      # checker crash -> exit 3 upstream
         return {"target": name, "case": case, "crash": traceback.format_exc(), "prop": "?", "obligations": [],
                 "undecided": [], "paths": 0, "normal_paths": 0, "raise_paths": 0, "notes": [], "inlined": [],
